@@ -65,6 +65,12 @@ func (env *Env) fail(f string, a ...any) SV {
 	return SV{t: "true", sort: "Bool", ty: types.Typ[types.Bool]}
 }
 
+// utf8Decl: decoding of a string at a byte position, as `range` does it: ASCII bytes are runes of width 1,
+// anything else is a rune >= 128 (or the replacement rune) of width 1..4 that stays within the string.
+const utf8Decl = `(declare-fun utf8.rune (Str Int) Int)
+(declare-fun utf8.width (Str Int) Int)
+(assert (forall ((s Str) (p Int)) (! (=> (and (<= 0 p) (< p (slen s))) (and (<= 1 (utf8.width s p)) (<= (utf8.width s p) 4) (<= (+ p (utf8.width s p)) (slen s)) (<= 0 (utf8.rune s p)) (<= (utf8.rune s p) 1114111) (ite (< (sat s p) 128) (and (= (utf8.width s p) 1) (= (utf8.rune s p) (sat s p))) (>= (utf8.rune s p) 128)))) :pattern ((utf8.width s p)))))`
+
 func (env *Env) sub() *Env {
 	n := *env
 	n.vars = make(map[string]SV, len(env.vars))
@@ -942,6 +948,15 @@ func (env *Env) elabCall(x *ECall) SV {
 				r.dom = store(m.dom, k.t, "false")
 				r.name = ""
 				return r
+			case "runeat", "runewidth":
+				// the rune decoded at byte position p of a string, and its width in bytes (what `range` yields)
+				sv := env.elab(x.Args[0])
+				pv := env.elab(x.Args[1])
+				env.vc.declFun("utf8.rune", utf8Decl)
+				if id.Name == "runeat" {
+					return SV{t: app("utf8.rune", sv.t, pv.t), sort: "Int", ty: types.Typ[types.Int32]}
+				}
+				return env.intSV(app("utf8.width", sv.t, pv.t))
 			case "chr":
 				v := env.elab(x.Args[0])
 				env.vc.declFun("chr", "(declare-fun chr (Int) Str)\n(assert (forall ((c Int)) (! (and (= (slen (chr c)) 1) (=> (and (<= 0 c) (< c 256)) (= (sat (chr c) 0) c))) :pattern ((chr c)))))")
